@@ -35,7 +35,8 @@ type c09Case struct {
 
 var c09Names = []string{"a", "b", "c", "d"}
 
-// a script variant: kind 0 = valid with the given use targets, 1 = unparsable, 4 = unparsable in two places, 2 = check-failing, 3 = check-failing with a multi-entry error chain
+// a script variant: kind 0 = valid with the given use targets, 1 = unparsable, 4 = unparsable in two places, 2 = check-failing, 3 = check-failing with a multi-entry error chain,
+// 5 / 6 = check-failing after use calls (of a missing name / of a and b)
 type c09Var struct {
 	Kind int
 	Uses []string
@@ -55,7 +56,7 @@ func c09Variants(maxUses int) []c09Var {
 			}
 		}
 	}
-	vs = append(vs, c09Var{Kind: 1}, c09Var{Kind: 2}, c09Var{Kind: 3}, c09Var{Kind: 4})
+	vs = append(vs, c09Var{Kind: 1}, c09Var{Kind: 2}, c09Var{Kind: 3}, c09Var{Kind: 4}, c09Var{Kind: 5}, c09Var{Kind: 6})
 	// valid scripts without a single statement
 	vs = append(vs, c09Var{Kind: 0, Text: "# only a comment\n"}, c09Var{Kind: 0, Text: "\n  \n"})
 	return vs
@@ -72,6 +73,11 @@ func (v c09Var) Src() string {
 		return "p(1)\n1(2)\n)\nx = = 2\n"
 	case 2:
 		return "p(1)\n  nosuch()"
+	case 5:
+		// check-failing AFTER a use call was met (the use of a missing name is never reached by the linker)
+		return "p(1)\n use(\"missing\")\n  nosuch()"
+	case 6:
+		return "p(1)\n use(\"a\")\n use(\"b\")\n  nosuch()"
 	case 3:
 		// a check error whose own position chain has several entries (and spare capacity)
 		return "p(1)\n len(len({1: 2}))"
@@ -669,8 +675,8 @@ func init() {
 	run.Register(&run.Check{
 		ID:    "C09",
 		Level: "model_checking",
-		Rule: "script sets over names {a,b,c,d}: each script is valid with an ordered list of <=2 use targets in {a,b,c,d,missing} (31 variants), valid without any statement (comment-only, blank lines), unparsable, check-failing, or check-failing with a multi-entry error chain; ALL sets of 1..3 scripts (37+37^2+37^3) under ALL parse/check orders x ALL link orders of the loader's two map iterations (overlay rewrite of the range statements), " +
-			"4-script sets with <=1 use each and all 4-sets of valid scripts with <=2 distinct existing targets (quick) / all 37^4 (thorough) under all 24 link orders; every (set, order) is a fresh ParseScript, and each set is loaded a second time under the same orders (same verdicts, same error texts); oracle: verdict map == graph-reachability reference (hence equal across orders), every use call of an accepted script bound to the accepted script of that name, " +
+		Rule: "script sets over names {a,b,c,d}: each script is valid with an ordered list of <=2 use targets in {a,b,c,d,missing} (31 variants), valid without any statement (comment-only, blank lines), unparsable, check-failing, check-failing with a multi-entry error chain, or check-failing after use calls (of a missing name / of a and b); ALL sets of 1..3 scripts (39+39^2+39^3) under ALL parse/check orders x ALL link orders of the loader's two map iterations (overlay rewrite of the range statements), " +
+			"4-script sets with <=1 use each and all 4-sets of valid scripts with <=2 distinct existing targets (quick) / all 39^4 (thorough) under all 24 link orders; every (set, order) is a fresh ParseScript, and each set is loaded a second time under the same orders (same verdicts, same error texts); oracle: verdict map == graph-reachability reference (hence equal across orders), every use call of an accepted script bound to the accepted script of that name, " +
 			"a dependency-rejected script's position chain = root cause (callee's own error, use of a missing name, or cycle-closing call) followed by the use call sites outward, every entry inside the file it names; plus the unmodified map order 8x on a third of the 3-script sets (conformance of the seam)",
 		Assumptions:    []string{"the loader's only nondeterminism is the iteration order of its two script maps (checked by grep: pkg/engine has no other map range, goroutine or clock)"},
 		Run:            c09Run,
